@@ -28,6 +28,7 @@ type LoopContract struct {
 	Invariants []*Clause
 	Decreases  *Clause
 	Assigns    []string
+	Peel       bool // the loop runs at most once (obligation: no second iteration); see execPeeled
 }
 
 // Exempt: `exempt <param> when <cond>` — at returns where cond holds, the object *param may violate its type
@@ -65,6 +66,7 @@ type Contract struct {
 	Ensures    []*Clause
 	Goals      []*Clause
 	Assigns    []string
+	AssignsAt  map[string][]string // `assigns K@p`: heap K is written only at the object parameter p points to (or at fresh objects)
 	HasAssigns bool
 	Pure       bool
 	Inline     bool
@@ -96,6 +98,7 @@ type ContractFile struct {
 	GlobalInvs  []*GlobalInv
 	MapVals     []*TypeInv // `mapvals <global> <var> <type> : <expr>` facts about the values of an immutable package-level map
 	NonNilElems []string   // element types whose slice elements are never nil once the slice is visible outside the frame that built it
+	MapModels   []string   // `mapmodel <map type>`: Go map types translated precisely (see maps.go)
 	FreshOnly   []string   // heap keys that are only ever written on objects allocated by the writer (see `freshonly`)
 	Errors      []string
 }
@@ -160,7 +163,7 @@ func ParseContracts(src string) *ContractFile {
 		if k := strings.IndexAny(t, " \t"); k >= 0 {
 			word, rest = t[:k], strings.TrimSpace(t[k+1:])
 		}
-		if curLemma != nil && word != "func" && word != "lemma" && word != "typeinv" && word != "globalinv" && word != "freshonly" && word != "nonnil-elems" && word != "mapvals" {
+		if curLemma != nil && word != "func" && word != "lemma" && word != "typeinv" && word != "globalinv" && word != "freshonly" && word != "nonnil-elems" && word != "mapvals" && word != "mapmodel" {
 			curLemma.Body += raw + "\n"
 			continue
 		}
@@ -206,6 +209,9 @@ func ParseContracts(src string) *ContractFile {
 			continue
 		case "freshonly":
 			cf.FreshOnly = append(cf.FreshOnly, splitProps(rest)...)
+			continue
+		case "mapmodel":
+			cf.MapModels = append(cf.MapModels, splitProps(rest)...)
 			continue
 		case "globalinv":
 			k := strings.Index(rest, ":")
@@ -290,7 +296,25 @@ func ParseContracts(src string) *ContractFile {
 			} else {
 				cur.HasAssigns = true
 				if rest != "nothing" {
-					cur.Assigns = append(cur.Assigns, splitProps(rest)...)
+					for _, w := range splitProps(rest) {
+						if k := strings.Index(w, "@"); k > 0 {
+							key, par := w[:k], w[k+1:]
+							if cur.AssignsAt == nil {
+								cur.AssignsAt = map[string][]string{}
+							}
+							cur.AssignsAt[key] = append(cur.AssignsAt[key], par)
+							w = key
+						}
+						dup := false
+						for _, x := range cur.Assigns {
+							if x == w {
+								dup = true
+							}
+						}
+						if !dup {
+							cur.Assigns = append(cur.Assigns, w)
+						}
+					}
 				}
 			}
 		case "pure":
@@ -323,6 +347,12 @@ func ParseContracts(src string) *ContractFile {
 			c := &Clause{Kind: "invariant", Text: rest, Props: props, Line: ln, Ord: len(curLoop.Invariants) + 1}
 			curLoop.Invariants = append(curLoop.Invariants, c)
 			lastClause = c
+		case "peel":
+			if curLoop == nil {
+				errf(ln, "peel outside loop")
+				continue
+			}
+			curLoop.Peel = true
 		case "decreases":
 			if curLoop == nil {
 				errf(ln, "decreases outside loop")
@@ -442,6 +472,14 @@ func ClauseToGo(s string) (string, error) {
 }
 
 func rewriteToks(ts []tok) (string, error) {
+	// quantifier over strings (map keys): forallkey k: P
+	if len(ts) > 3 && ts[0].lit == "forallkey" && ts[2].t == token.COLON {
+		body, err := rewriteToks(ts[3:])
+		if err != nil {
+			return "", err
+		}
+		return fmt.Sprintf("forallStr(func(%s string) bool { return %s })", ts[1].lit, body), nil
+	}
 	// quantifier at the head: forall k in [ lo , hi ) : P   (extends to the end of this token group)
 	if len(ts) > 0 && (ts[0].lit == "forall" || ts[0].lit == "exists") && len(ts) > 3 && ts[2].lit == "in" {
 		name := ts[1].lit
